@@ -27,7 +27,9 @@ What reaches the real code ($LOGICA_REPO):
 import collections
 import concurrent.futures as cf
 import json
+import os
 import re
+import shutil
 import sys
 import traceback
 
@@ -154,7 +156,11 @@ def _StringSignatures(rec, verdict):
       except Exception:  # pylint: disable=broad-except
         emitted = ''
       sig['raw_newline_in_literal'] = '\n' in emitted
-      sig['multiline_context'] = rec['ctx'] == 'nested' or rec['pos'] == 'list'
+      # The statement is the reference statement with the emitted literal in
+      # place of the marker, up to blanks inserted after newlines.
+      ref = strlit.Txt(rec['ref'])
+      want = ref[:rec['at'] - 1] + emitted + ref[rec['at'] - 1 + rec['len']:]
+      sig['indent_only'] = _IndentOnly(strlit.Txt(rec['sql']), want)
   text = '%s %s/%s/%s: %s; s=%r got=%r %s' % (
       rec['k'], rec.get('d', 'sqlite'), rec['pos'], rec['ctx'], why, s,
       strlit.Txt(rec.get('got', []))[:80], detail[:160])
@@ -220,7 +226,7 @@ def Run(tier):
     _Log('compile-only: %d records from %d programs (%.0fs)' % (
         len(sql), len(stasks), clock()))
     srecs = unit + pipe + sql
-    sfut = pool.submit(strlit.Validate, srecs, 'c10')
+    sfut = pool.submit(strlit.Validate, srecs, 'c10_%d' % os.getpid())
 
     # ---- flags: TLC's cases against the real code ------------------------
     model_stats = {}
@@ -250,13 +256,17 @@ def Run(tier):
              len(funit), len(fpipe), len(cases), len(grows),
              min(len(grows), cfg['grow_sample']), clock()))
     frecs = funit + fpipe
-    ffut = pool.submit(flagscheck.Validate, frecs, 'c10flags')
+    ffut = pool.submit(flagscheck.Validate, frecs,
+                       'c10flags_%d' % os.getpid())
 
     # ---- verdicts --------------------------------------------------------
     lemma, carry = futs['lemma'].result()
     sbad, ssum, serr, sstats = sfut.result()
     fbad, fsum, ferr, fstats = ffut.result()
   _Log('TLC verdicts in (%.0fs)' % clock())
+  for tag in ('c10_%d', 'c10flags_%d'):
+    shutil.rmtree(os.path.join(common.BUILD, 'trace', tag % os.getpid()),
+                  ignore_errors=True)
 
   if not lemma.ok or not carry:
     machinery.append('StrLitLemma failed: ' + lemma.out[-1500:])
@@ -427,7 +437,8 @@ def Replay(path):
     recs = (flagscheck.RunPipe([case], timeout=30) if level == 'pipe'
             else flagscheck.RunUnit([case], timeout=30))
     recs = [r for r in recs if r['via'] == p['record']['via']]
-    bad, _, errors, _ = flagscheck.Validate(recs, 'c10replay', nshards=1)
+    bad, _, errors, _ = flagscheck.Validate(recs, 'c10replay_%d' % os.getpid(),
+                                               nshards=1)
     out = [(_FlagSignature(r, bad[r['id']], case)) for r in recs
            if r['id'] in bad]
   else:
@@ -440,7 +451,8 @@ def Replay(path):
     else:
       recs = strlit._SqlTask((rec['d'], rec['pos'], rec['ctx'], rec['form'],
                               [s]))
-    bad, _, errors, _ = strlit.Validate(recs, 'c10replay', nshards=1)
+    bad, _, errors, _ = strlit.Validate(recs, 'c10replay_%d' % os.getpid(),
+                                           nshards=1)
     out = []
     for r in recs:
       if r['id'] in bad:
